@@ -13,6 +13,7 @@ import time
 HERE = os.path.dirname(os.path.dirname(os.path.abspath(__file__)))
 VENV_PY = os.environ.get('VERIF_PYTHON', '/venv/bin/python')
 REPO_SRC = os.environ.get('VERIF_REPO_SRC', '/repo/src')
+OUT = os.environ.get('VERIF_OUT') or None   # self-test runs against a scratch tree write evidence/replays here, never into /verif
 
 
 def load_meta(prop):
@@ -54,7 +55,7 @@ def run_property(prop, tier, seed, verbose=True):
     procs = []
     env = env_for_shards()
     import glob
-    for old in glob.glob(os.path.join(HERE, 'replays', f'{prop}_{tier}_{seed}_*.json')):
+    for old in glob.glob(os.path.join(OUT or HERE, 'replays', f'{prop}_{tier}_{seed}_*.json')):
         os.unlink(old)
     for sh in range(nshards):
         out = os.path.join(tmpd, f'shard{sh}.json')
@@ -138,8 +139,8 @@ def run_property(prop, tier, seed, verbose=True):
         'violations': vcount_new,
     }
     if samples and evaluations > 0:
-        os.makedirs(os.path.join(HERE, 'evidence'), exist_ok=True)
-        with open(os.path.join(HERE, 'evidence', prop + '.json'), 'w') as f:
+        os.makedirs(os.path.join(OUT or HERE, 'evidence'), exist_ok=True)
+        with open(os.path.join(OUT or HERE, 'evidence', prop + '.json'), 'w') as f:
             json.dump(evidence, f, indent=1, default=repr)
 
     for key, vs in sorted(known_v.items()):
@@ -148,13 +149,13 @@ def run_property(prop, tier, seed, verbose=True):
         keys = ', '.join(f'{k}={v}' for k, v in sorted(counters.items()) if not k.startswith('violation'))
         print(f'[{prop} {tier} seed={seed}] evaluations={evaluations} cells={len(cells)} wall={wall:.1f}s :: {keys[:1500]}')
     if new_v:
-        os.makedirs(os.path.join(HERE, 'replays'), exist_ok=True)
+        os.makedirs(os.path.join(OUT or HERE, 'replays'), exist_ok=True)
         seen = set()
         for i, v in enumerate(new_v):
             if v['key'] in seen and i > 10:
                 continue
             seen.add(v['key'])
-            path = os.path.join(HERE, 'replays', f'{prop}_{tier}_{seed}_{i}.json')
+            path = os.path.join(OUT or HERE, 'replays', f'{prop}_{tier}_{seed}_{i}.json')
             with open(path, 'w') as f:
                 json.dump(v, f, indent=1, default=repr)
             print(f'VIOLATION property={prop} replay={path}')
